@@ -161,6 +161,13 @@ func (c08) Gen(rs uint64, tier string, race bool) interface{} {
 		big = false
 	}
 	c.Rows = genNtRows(r, n, l)
+	if r.Chance(0.06) {
+		// a residue the distance code may have no symbol for, somewhere in the alignment
+		ri := r.Intn(n)
+		b := []byte(c.Rows[ri])
+		b[r.Intn(l)] = "U?O*"[r.Intn(4)]
+		c.Rows[ri] = string(b)
+	}
 	c.Model = dnaModels[r.Intn(len(dnaModels))]
 	c.RmGaps = r.Chance(0.3)
 	c.Gamma = r.Chance(0.3)
@@ -526,8 +533,41 @@ func (c08) Run(ctx *Ctx, ci interface{}) (o Outcome) {
 		return
 	}
 	if ref.err != nil {
-		// invalid configuration for this model (e.g. rejected by InitModel): nothing to compare
+		// the model rejects the alignment (InitModel): no matrix to compare, but the verdict itself must not depend on
+		// the number of workers, the schedule or the presentation of the alignment
 		o.Add("reference_error", 1)
+		if faulty {
+			return
+		}
+		if !check(fmt.Sprintf("%d workers, policy %s", c.Cpus, policyNames[c.Policy%nPolicies]), &run) {
+			return
+		}
+		if run.err == nil {
+			o.Fail("lost-error:DistMatrix", "with 1 worker DistMatrix returns %v; with %d workers under policy %s it returns a matrix and no error", ref.err, c.Cpus, policyNames[c.Policy%nPolicies])
+			return
+		}
+		switch c.Relation {
+		case "colperm", "rowperm", "replicate", "weightk", "unitw":
+			rows2, w2, _, ok := c.transformed()
+			if !ok {
+				return
+			}
+			rel, _ := c.runDist(ctx, rows2, w2, c.RelCpus, SchedCfg{Seed: Mix(c.Seed, "rel"), Policy: c.RelPol, Choices: c.RelCh, Strict: ctx.Strict, MaxSteps: budget * (c.RelK + 1)}, nil, nil)
+			if rel.sr.Diverged != "" {
+				ctx.Diverged = rel.sr.Diverged
+				return
+			}
+			if c.RelCh == nil {
+				c.RelCh = rel.sr.Choices
+			}
+			if !check("transformed presentation ("+c.Relation+")", &rel) {
+				return
+			}
+			o.Add("relation_error_status_"+c.Relation, 1)
+			if rel.err == nil {
+				o.Fail("relation:"+c.Relation+":error", "model %s: the alignment as given is refused (%v), its %s presentation (k=%d) gets a matrix", c.Model, ref.err, c.Relation, c.RelK)
+			}
+		}
 		return
 	}
 	if !check(fmt.Sprintf("%d workers, policy %s", c.Cpus, policyNames[c.Policy%nPolicies]), &run) {
@@ -605,76 +645,10 @@ func (c08) Run(ctx *Ctx, ci interface{}) (o Outcome) {
 		o.Add("relation_exempt_internal_gap_mode", 1)
 		return
 	}
-	rows2 := append([]string{}, c.Rows...)
-	w2 := c.Weights
-	scale := 1.0
-	l := len(c.Rows[0])
-	switch c.Relation {
-	case "colperm":
-		for i, s := range c.Rows {
-			b := make([]byte, l)
-			for k := range b {
-				b[k] = s[c.RelPerm[k]]
-			}
-			rows2[i] = string(b)
-		}
-		if c.Weights != nil {
-			w2 = make([]float64, l)
-			for k := range w2 {
-				w2[k] = c.Weights[c.RelPerm[k]]
-			}
-		}
-	case "replicate":
-		for i, s := range c.Rows {
-			rows2[i] = strings.Repeat(s, c.RelK)
-		}
-		if c.Weights != nil {
-			w2 = nil
-			for k := 0; k < c.RelK; k++ {
-				w2 = append(w2, c.Weights...)
-			}
-		}
-		if c.Model == "rawdist" {
-			scale = float64(c.RelK)
-		}
-	case "weightk":
-		w2 = make([]float64, l)
-		for k := range w2 {
-			w2[k] = float64(c.RelK)
-			if c.Weights != nil {
-				w2[k] *= c.Weights[k]
-			}
-		}
-		if c.Model == "rawdist" {
-			scale = float64(c.RelK)
-		}
-	case "unitw":
-		if c.Weights != nil {
-			o.Add("relation_skipped", 1)
-			return
-		}
-		w2 = make([]float64, l)
-		for k := range w2 {
-			w2[k] = 1
-		}
-	case "revcomp":
-		for i, s := range c.Rows {
-			b := make([]byte, l)
-			for k := range b {
-				b[k] = comp(s[l-1-k])
-			}
-			rows2[i] = string(b)
-		}
-		if c.Weights != nil {
-			w2 = make([]float64, l)
-			for k := range w2 {
-				w2[k] = c.Weights[l-1-k]
-			}
-		}
-	case "rowperm":
-		for i := range rows2 {
-			rows2[i] = c.Rows[c.RelPerm[i]]
-		}
+	rows2, w2, scale, ok := c.transformed()
+	if !ok {
+		o.Add("relation_skipped", 1)
+		return
 	}
 	cfg2 := SchedCfg{Seed: Mix(c.Seed, "rel"), Policy: c.RelPol, Choices: c.RelCh, Strict: ctx.Strict, MaxSteps: budget * (c.RelK + 1)}
 	rel, _ := c.runDist(ctx, rows2, w2, c.RelCpus, cfg2, nil, nil)
@@ -733,6 +707,81 @@ func (c08) Run(ctx *Ctx, ci interface{}) (o Outcome) {
 		o.Fail("relation:"+c.Relation, "model %s: %s presentation (k=%d) changes the matrix: %s", c.Model, c.Relation, c.RelK, d)
 	}
 	return
+}
+
+// transformed: the other presentation of the same alignment that the relation of the case asks for.
+func (c *C08Case) transformed() (rows2 []string, w2 []float64, scale float64, ok bool) {
+	rows2 = append([]string{}, c.Rows...)
+	w2 = c.Weights
+	scale = 1.0
+	l := len(c.Rows[0])
+	switch c.Relation {
+	case "colperm":
+		for i, s := range c.Rows {
+			b := make([]byte, l)
+			for k := range b {
+				b[k] = s[c.RelPerm[k]]
+			}
+			rows2[i] = string(b)
+		}
+		if c.Weights != nil {
+			w2 = make([]float64, l)
+			for k := range w2 {
+				w2[k] = c.Weights[c.RelPerm[k]]
+			}
+		}
+	case "replicate":
+		for i, s := range c.Rows {
+			rows2[i] = strings.Repeat(s, c.RelK)
+		}
+		if c.Weights != nil {
+			w2 = nil
+			for k := 0; k < c.RelK; k++ {
+				w2 = append(w2, c.Weights...)
+			}
+		}
+		if c.Model == "rawdist" {
+			scale = float64(c.RelK)
+		}
+	case "weightk":
+		w2 = make([]float64, l)
+		for k := range w2 {
+			w2[k] = float64(c.RelK)
+			if c.Weights != nil {
+				w2[k] *= c.Weights[k]
+			}
+		}
+		if c.Model == "rawdist" {
+			scale = float64(c.RelK)
+		}
+	case "unitw":
+		if c.Weights != nil {
+			return nil, nil, 1, false
+		}
+		w2 = make([]float64, l)
+		for k := range w2 {
+			w2[k] = 1
+		}
+	case "revcomp":
+		for i, s := range c.Rows {
+			b := make([]byte, l)
+			for k := range b {
+				b[k] = comp(s[l-1-k])
+			}
+			rows2[i] = string(b)
+		}
+		if c.Weights != nil {
+			w2 = make([]float64, l)
+			for k := range w2 {
+				w2[k] = c.Weights[l-1-k]
+			}
+		}
+	case "rowperm":
+		for i := range rows2 {
+			rows2[i] = c.Rows[c.RelPerm[i]]
+		}
+	}
+	return rows2, w2, scale, true
 }
 
 // substituted marks the pairs whose distance, asked of the model the run used, is not an ordinary number:
